@@ -240,10 +240,12 @@ class Mod:
                 f.exit = rng.choice(["return", "none", "none", "raise"])
                 if f.exit == "return":
                     f.ret_vals = [rng.choice(["1", "'s'", "A()", "None", "[1]"])]
+                if rng.random() < self.opts.get("annotate", 0.35) * 0.6:
+                    f.ret_ann = "Iterator[Any]" if f.exit != "return" else "Generator[Any, None, Any]"
             else:
                 f.exit = "return" if r < 0.7 else ("none" if r < 0.8 else ("raise" if r < 0.88 else "mixed"))
             if f.exit in ("return", "mixed") and not f.ret_vals:
-                if rng.random() < self.opts.get("annotate", 0.35) and flavor == "plain":
+                if rng.random() < self.opts.get("annotate", 0.35) and flavor in ("plain", "coro"):
                     s = rng.choice(SLOTS)
                     f.ret_ann, f.ret_vals = s["ann"], list(s["vals"])
                 else:
